@@ -9,6 +9,7 @@ package c15types
 import (
 	"errors"
 	"fmt"
+	"reflect"
 	"strings"
 
 	gogotypes "github.com/gogo/protobuf/types"
@@ -143,6 +144,13 @@ func Make(ty int, a int, b string, ptr bool) any {
 // Render gives (type id, canonical content) of a value the harness sent or a handler
 // received; (0, "?...") for anything else.
 func Render(v any) (int, string) {
+	if Depth(v) > 1 {
+		c := Canon(v)
+		if c == nil {
+			return 0, "?nil pointer chain"
+		}
+		v = c
+	}
 	switch x := v.(type) {
 	case CmdA:
 		return TCmdA, fmt.Sprintf("%d|%q", x.A, x.B)
@@ -186,4 +194,52 @@ func Colliding(v interface{}) string {
 		return "cmd"
 	}
 	return s
+}
+
+// Depth is the number of pointer levels v is passed through (0 for a plain value).
+func Depth(v any) int {
+	d := 0
+	for t := reflect.TypeOf(v); t != nil && t.Kind() == reflect.Ptr; t = t.Elem() {
+		d++
+	}
+	return d
+}
+
+// Canon dereferences v down to a single pointer level (nil if a pointer on the way is nil).
+func Canon(v any) any {
+	rv := reflect.ValueOf(v)
+	for rv.Kind() == reflect.Ptr && rv.Type().Elem().Kind() == reflect.Ptr {
+		if rv.IsNil() {
+			return nil
+		}
+		rv = rv.Elem()
+	}
+	if rv.Kind() == reflect.Ptr && rv.IsNil() {
+		return nil
+	}
+	return rv.Interface()
+}
+
+// MakeDepth builds the value of Make and passes it through depth pointer levels:
+// 0 = T, 1 = *T, 2 = **T, ... (protobuf types have no plain form: depth 0 is treated as 1).
+func MakeDepth(ty int, a int, b string, depth int) any {
+	if depth == 0 {
+		return Make(ty, a, b, false)
+	}
+	v := Make(ty, a, b, true)
+	for d := Depth(v); d < depth; d++ {
+		p := reflect.New(reflect.TypeOf(v))
+		p.Elem().Set(reflect.ValueOf(v))
+		v = p.Interface()
+	}
+	return v
+}
+
+// BaseName is the Go type string of the plain type ("pkg.T").
+func BaseName(ty int) string {
+	t := reflect.TypeOf(New(ty))
+	for t.Kind() == reflect.Ptr {
+		t = t.Elem()
+	}
+	return t.String()
 }
